@@ -189,6 +189,6 @@ def strat_nd(tier):
 
 
 PARTS = [
-    Part("contour2d", check_contour, strat_2d, quick=3000, thorough=25000, min_nontrivial_frac=0.5),
-    Part("contournd", check_contour, strat_nd, quick=1500, thorough=12000, min_nontrivial_frac=0.5),
+    Part("contour2d", check_contour, strat_2d, quick=3000, thorough=25000, min_nontrivial_frac=0.3),
+    Part("contournd", check_contour, strat_nd, quick=1500, thorough=12000, min_nontrivial_frac=0.3),
 ]
